@@ -39,6 +39,12 @@ func linearize(info *types.Info, body *ast.BlockStmt, e ast.Expr, atom func(ast.
 		if tv, ok := info.Types[v.Fun]; ok && tv.IsType() && len(v.Args) == 1 {
 			return linearize(info, body, v.Args[0], atom)
 		}
+		// a value helper of the module (grownCapacity(n) = n*2 + 1) reads as what it returns
+		if res := helperResults(curProg, info, v); len(res) == 1 {
+			if _, again := ast.Unparen(res[0]).(*ast.CallExpr); !again || res[0] != ast.Expr(v) {
+				return linearize(info, body, res[0], atom)
+			}
+		}
 	case *ast.UnaryExpr:
 		if v.Op == token.SUB || v.Op == token.ADD {
 			f, ok := linearize(info, body, v.X, atom)
